@@ -211,7 +211,7 @@ func main() {
 			}
 			continue
 		}
-		if *tier == "thorough" {
+		if *tier == "thorough" || os.Getenv("FPCHECK_WITNESSES") != "" {
 			runWitnesses(res, id, *repo)
 		}
 		if e := finish(res, *verif, *tier, seed); e > exit {
